@@ -1,5 +1,5 @@
 """C01 -- compiled programs behave as their source prescribes (lowering tables)."""
-from rules import hirq, mirq, origins
+from rules import hirq, mirq, origins, visit
 from rules.core import walk, norm_path, AnchorMissing
 from props import c06, c07, c16
 
@@ -18,7 +18,8 @@ EXPLANATION = (
     "with C06.R4) and Goto/Label lower through find_or_append_labeled_block; R7 members are addressed by the index the typer "
     "found by name: backward def-use slices show that analyze_member_access returns the enumerate index under the name "
     "equality test, that the typer, the resolver and the generator's insertvalue/extractvalue/GEP operands all derive "
-    "from that offset and never from the position of a member in the source text. Address computation, autoderef insertion "
+    "from that offset and never from the position of a member in the source text; R8 the generator passes every child "
+    "of every resolved node on to generate() (visitor completeness through helper functions). Address computation, autoderef insertion "
     "and wrap-around arithmetic are value-level and not decided.")
 
 GEN_EXPR = "<alpha::resolved::Expression as alpha::generator::Generatable>::generate"
@@ -275,6 +276,37 @@ def r7_member_index(run, F):
     run.ob(RULE, "generator: member address", ok, F.where(sa, arm), "the GEP index of a `.member` step is const_i32(offset)", sample=[sorted(map(str, o))[:12] for o in oks])
 
 
+def r8_generator_visit(run, F):
+    """T2 (interprocedural): the generator lowers every statement, expression and reference of the resolved tree; an arm
+    that does not pass a child on to generate() (directly or through a helper) silently drops that part of the program."""
+    C = F.lib
+    rel = visit.type_closure(C, {"alpha::resolved::Expression", "alpha::resolved::Reference", "alpha::resolved::Statement"})
+    TR = "alpha::generator::Generatable"
+
+    def base(c):
+        return c.endswith("alpha::generator::Generatable>::generate") or c == TR + "::generate"
+    cands = [b for p, b in C.bodies.items() if p.startswith("alpha::generator::") and "{closure" not in p and not b.get("impl_trait")]
+    T = visit.traverser_closure(C, base, cands, rel)
+    run.info("generator helper traversals: %s" % sorted(T))
+    impls = [b for b in C.bodies.values() if b.get("impl_trait") == TR and "{closure" not in b["npath"]]
+    run.require(len(impls) >= 8 and len(T) >= 10, "generator: Generatable impls / helper traversals not found (%d, %d)" % (len(impls), len(T)))
+    exceptions = {"Declaration::Constant.value": "constant initialisers are lowered by generator::declare (checked below), before any function body"}
+    n = 0
+    for b in impls:
+        def rep(key, ok, where, detail, sample):
+            run.ob("R8-GENERATOR-VISITS", key, ok, where, detail + ": that part of the program is never lowered to IR", sample)
+        n += visit.check_impl(F, C, b, rel, lambda c: base(c) or c in T, rep, exceptions=exceptions)
+    run.require(n >= 30, "too few visit obligations (%d)" % n)
+    d = F.body("alpha::generator::declare")
+    m = hirq.find_match(d, min_arms=3)
+    carm = hirq.arm_for(m, "Declaration::Constant")
+    ok = False
+    if carm:
+        binds = {nm: lid for nm, lid, _ in hirq.pat_bindings(carm[0]["pat"])}
+        ok = "value" in binds and any(base(hirq.callee(c) or "") and hirq.uses_local(c.get("recv", {}), binds["value"]) for c in hirq.calls(carm[0]["body"]))
+    run.ob("R8-GENERATOR-VISITS", "declare lowers the constant initialiser", ok, F.where(d), "generator::declare must generate the value of a constant")
+
+
 def check(run):
     F = run.facts("B")
     r1_binary(run, F)
@@ -284,3 +316,7 @@ def check(run):
     c16.r5_agree(run, F)
     r6_lowering(run, F)
     r7_member_index(run, F)
+    r8_generator_visit(run, F)
+    # integer literals are materialised with the sign/zero extension their type prescribes (shared with C09.R6)
+    from props import c09
+    c09.r6_generator(run, F)
